@@ -86,7 +86,8 @@ def replay_bin(profile='release', features=('std', 'hashes', 'x86hashes'), rustf
     key = (profile, tuple(features), rustflags)
     if key in _replay_bins:
         return _replay_bins[key]
-    tdir = os.path.join(build.CACHE, 'build', 'replay-%s-%s' % (profile, '-'.join(features) or 'none'))
+    import hashlib
+    tdir = os.path.join(build.CACHE, 'build', 'replay-%s-%s%s' % (profile, '-'.join(features) or 'none', ('-' + hashlib.md5(rustflags.encode()).hexdigest()[:6]) if rustflags else ''))
     env = dict(os.environ)
     env['CARGO_NET_OFFLINE'] = 'true'
     env['CARGO_TARGET_DIR'] = tdir
@@ -102,9 +103,9 @@ def replay_bin(profile='release', features=('std', 'hashes', 'x86hashes'), rustf
     return b
 
 
-def replay(fname, args, model, profile='release', features=('std', 'hashes', 'x86hashes'), backend=None, timeout=60, ufs=None):
+def replay(fname, args, model, profile='release', features=('std', 'hashes', 'x86hashes'), backend=None, timeout=60, ufs=None, rustflags=''):
     """run the entry natively; returns dict(status='ok'|'panic'|'crash', outputs=[hex...], ret=str, stderr=str)"""
-    b = replay_bin(profile, features)
+    b = replay_bin(profile, features, rustflags)
     env = dict(os.environ)
     cpu = cpu_mask(model)
     if cpu is not None:
